@@ -260,7 +260,14 @@ func VerifC03QueueBatch() {
 			accepted[i] = true // enqueue completed before shutdown is requested
 		}
 	}
-	vAssert(qb.Shutdown(context.Background()) == nil, "queue-batch/shutdown-ok")
+	// the context handed to Shutdown may already have ended (a shutdown deadline): the drain still completes
+	sctx := context.Background()
+	if vChoice("shutdown-context-already-ended", 2) == 1 {
+		c, cancel := context.WithCancel(sctx)
+		cancel()
+		sctx = c
+	}
+	vAssert(qb.Shutdown(sctx) == nil, "queue-batch/shutdown-ok")
 	led.stopped = true
 	vAssert(len(led.inFlight) == 0, "queue-batch/all-export-calls-returned-when-shutdown-returns")
 	for i := 0; i < K; i++ {
